@@ -12,6 +12,7 @@ import (
 // Fact is an entry of Γ: a definition, a guarded assumption, or a quantified fact.
 type Fact struct {
 	Def   *Term // if non-nil: the defined constant; Body is (= Def expr)
+	Tag   interface{} // DAG node under whose guard the fact was assumed (nil: unconditional)
 	Body  *Term
 	Vars  []*Term // quantified variables (const placeholders); nil for ground facts
 	Trigs []trigger
@@ -32,6 +33,8 @@ type Obligation struct {
 	MustSat  bool // vacuity / reachability obligations: expected SAT
 	Inputs   []NamedTerm
 	vc       *VC
+	x        *Exec
+	Tag      interface{}
 	Note     string
 	CaseName string
 }
@@ -59,6 +62,8 @@ type VC struct {
 	warned map[string]bool
 	Assumptions map[string]bool
 	Skolems []*Term
+	CurTag  interface{}
+	Ancestors func(tag interface{}) map[interface{}]bool
 	symMu   sync.Mutex
 	Broad   bool // instantiate driven by every select of the query (fallback)
 	symMemo map[*Term]map[string]bool
@@ -127,7 +132,11 @@ func (vc *VC) Assume(guard, f *Term, label string) {
 	if b == True {
 		return
 	}
-	vc.Facts = append(vc.Facts, Fact{Body: b, Label: label})
+	fa := Fact{Body: b, Label: label}
+	if guard != True {
+		fa.Tag = vc.CurTag
+	}
+	vc.Facts = append(vc.Facts, fa)
 }
 
 // SplitGoal flattens a goal into conjuncts (hyps => atom), at most max pieces.
@@ -180,6 +189,9 @@ type trigger struct {
 // AssumeForall adds a quantified fact (instantiated engine-side).
 func (vc *VC) AssumeForall(vars []*Term, guard, body *Term, label string) {
 	f := Fact{Body: Implies(guard, body), Vars: vars, Label: label}
+	if guard != True {
+		f.Tag = vc.CurTag
+	}
 	if len(vars) == 1 {
 		v := vars[0]
 		seen := map[*Term]bool{}
@@ -385,6 +397,11 @@ func (vc *VC) symsOf(t *Term, limit int) map[string]bool {
 // BuildQueryRel is BuildQueryFor with a relevance depth: depth > 0 keeps only ground assumptions within
 // that many symbol-sharing hops of the goal and guard (dropping hypotheses is sound for validity).
 func (vc *VC) BuildQueryRel(o *Obligation, goal *Term, extra []*Term, light bool, depth int) *Query {
+	allDefs := false
+	if depth >= 100 {
+		allDefs = true
+		depth -= 100
+	}
 	facts := vc.Facts[:o.NFacts]
 	// SInE-style premise selection (depth > 0): a fact is triggered by its rarest symbols; starting from the
 	// symbols of the goal and guard, triggered facts are added for `depth` rounds. Definitions are triggered by
@@ -464,10 +481,29 @@ func (vc *VC) BuildQueryRel(o *Obligation, goal *Term, extra []*Term, light bool
 			}
 			return changed
 		}
+		// definitions of relevant symbols are always unfolded, transitively (they do not count as a round)
+		closeBool := func() {
+			for changed := true; changed; {
+				changed = false
+				for i := range facts {
+					f := &facts[i]
+					if relevant[i] || f.Def == nil || !rel[f.Def.Name] || (f.Def.S != BoolS && !allDefs) {
+						continue
+					}
+					relevant[i] = true
+					changed = true
+					for k := range fsyms[i] {
+						rel[k] = true
+					}
+				}
+			}
+		}
+		closeBool()
 		for d := 0; d < depth; d++ {
 			if !round() {
 				break
 			}
+			closeBool()
 		}
 		sineExtend = func(ts []*Term) {
 			for _, t := range ts {
@@ -489,8 +525,17 @@ func (vc *VC) BuildQueryRel(o *Obligation, goal *Term, extra []*Term, light bool
 	var qfacts []*Fact
 	arrSeen := map[*Term]bool{}
 	addedGround := map[int]bool{}
+	// path slicing: a fact assumed under the guard of a DAG node that cannot reach the obligation's node is
+	// vacuous on every execution reaching the obligation, so it is dropped
+	var anc map[interface{}]bool
+	if o.Tag != nil && vc.Ancestors != nil && !o.MustSat {
+		anc = vc.Ancestors(o.Tag)
+	}
 	for i := range facts {
 		f := &facts[i]
+		if anc != nil && f.Tag != nil && !anc[f.Tag] {
+			continue
+		}
 		if f.Vars != nil {
 			if !light && (relevant == nil || relevant[i]) {
 				qfacts = append(qfacts, f)
